@@ -18,7 +18,7 @@ from mc import core, refsd, srv
 LEVEL = "exploration"
 SM = "smSrv"
 EQS = ["S", "f", "o", "g", "k"]
-V = {"v1": 5.0, "v2": 0.5}
+V = {"v1": 5.0, "v2": 0.5, "v0": 2.0}      # v0: back to the value the scenario was registered with
 
 
 def compositions(n):
@@ -42,7 +42,7 @@ CP_K, CP_PTS = 4.0, [[0.0, 3.0], [2.0, 1.0], [9.0, 6.0]]     # option "cp": a co
 
 def settings_options(call):
     if call[0] == "step":
-        return [None, "empty", "v1", "v2", "cp"]
+        return [None, "empty", "v1", "v2", "cp", "v0"]
     if call[0] == "steps":
         return ["empty", "v1", "v2"] + (["cp"] if call[1] == 2 else [])
     return [None, "empty", "v1"]
@@ -169,6 +169,108 @@ def run_rest_session(start, n, dt, comp, opts):
                     break
         except Exception as e:
             viol.append(("flat-session-results-shape", "%s: %r %r" % (label, e, str(fr)[:200])))
+    return viol
+
+
+def run_special(kind, start, n, dt):
+    """begin-settings: a session on scenario alt (registered with k = 3) begun with settings that name only ANOTHER constant (r): every way of
+       obtaining the results - REST session, REST /run on a second server, Python session - computes with k = 3 and the new r;
+    long: a session of n >= 60 steps (an equation looks 12 time units back) with constants changed at steps 5 and 30, through REST run-step and
+       through the Python session; with n > 200 the Python session's scenario cache is reset in mid-session (after step n - 5)."""
+    from fractions import Fraction
+    stop = float(Fraction(str(start)) + n * Fraction(str(dt)))
+    viol = []
+    label = "%s start=%r dt=%r n=%d" % (kind, start, dt, n)
+    eqs_l = EQS + ["dl"]
+    if kind == "begin-settings":
+        spec = srv.ref_spec(start, stop, dt, k=3.0, r=0.2)
+        ref, times = refsd.RefModel(spec), refsd.grid(start, stop, dt)
+        settings = {SM: {"alt": {"constants": {"r": 0.2}}}}
+        app, client = srv.make_server(srv.make_factory(start, stop, dt))
+        iid = srv.start_instance(client)
+        client.post("/%s/begin-session" % iid, json={"scenario_managers": [SM], "scenarios": ["alt"], "equations": EQS + ["r"], "settings": settings})
+        got = {}
+        for t in times:
+            st = srv.step_values(srv.unpickle_json(srv.body(client.post("/%s/run-step" % iid))), SM, "alt")
+            for eq, (tt, v) in st.items():
+                got.setdefault(eq, {})[tt] = v
+        app2, client2 = srv.make_server(srv.make_factory(start, stop, dt))
+        body = srv.body(client2.post("/run", json={"scenario_managers": [SM], "scenarios": ["alt"], "equations": EQS + ["r"], "settings": settings}))
+        b = srv.make_factory(start, stop, dt)()
+        b.begin_session(scenarios=["alt"], scenario_managers=[SM], equations=EQS + ["r"], settings=settings)
+        py = {}
+        for t in times:
+            rr = b.run_step()
+            for eq, d in rr[SM]["alt"].items():
+                for tt, v in d.items():
+                    py.setdefault(eq, {})[float(tt)] = v
+        for name, ser in (("rest-session", got), ("python-session", py), ("rest-run", {eq: {float(k2): v for k2, v in d.items()} for eq, d in body[SM]["alt"]["equations"].items()})):
+            for eq in EQS + ["r"]:
+                for t in times:
+                    hit = [x for k2, x in ser.get(eq, {}).items() if core.close(k2, float(t))]
+                    if len(hit) != 1 or not core.close(hit[0], ref.value(eq, t), rel=1e-9, ab=1e-9):
+                        viol.append(("value/begin-settings/%s/%s" % (name, eq), "%s: %s(%r) = %r, reference (k = 3 as registered, r = 0.2 from the settings) %r" % (
+                            label, eq, float(t), hit, ref.value(eq, t))))
+                        return viol
+        return viol
+    if kind == "back-to-registered":
+        # scenario alt is registered with k = 3: a step moves k to 5, a later step moves it back to 3 (the registered value is a value like any other)
+        plan = {1: 5.0, 3: 3.0}
+        spec = srv.ref_spec(start, stop, dt)
+        s_, d_ = Fraction(str(start)), Fraction(str(dt))
+        keq = ["num", 3.0]
+        for idx, val in sorted(plan.items()):
+            keq = ["if", ["bin", ">=", ["time"], ["num", float(s_ + idx * d_ - d_ / 2)]], ["num", val], keq]
+        spec["elements"]["k"] = {"kind": "converter", "eq": keq}
+        ref, times = refsd.RefModel(spec), refsd.grid(start, stop, dt)
+        for route in ("run-step", "run-steps"):
+            app, client = srv.make_server(srv.make_factory(start, stop, dt))
+            iid = srv.start_instance(client)
+            client.post("/%s/begin-session" % iid, json={"scenario_managers": [SM], "scenarios": ["alt"], "equations": EQS})
+            for i, t in enumerate(times):
+                st_ = {SM: {"alt": {"constants": {"k": plan[i]}}}} if i in plan else {}
+                if route == "run-step":
+                    r = client.post("/%s/run-step" % iid, json={"settings": st_})
+                    res = srv.unpickle_json(srv.body(r))
+                else:
+                    r = client.post("/%s/run-steps" % iid, json={"numberSteps": 1, "settings": st_})
+                    res = srv.unpickle_json(srv.body(r))[0]
+                st = srv.step_values(res, SM, "alt")
+                for eq in EQS:
+                    if not core.close(st[eq][1], ref.value(eq, t), rel=1e-9, ab=1e-9):
+                        viol.append(("value/back-to-registered/%s/%s" % (route, eq), "%s: step %d: %s(%r) = %r, reference %r (k: 3 registered, 5 from step 1, 3 again from step 3)" % (
+                            label, i, eq, float(t), st[eq][1], ref.value(eq, t))))
+                        return viol
+        return viol
+    # ---- long sessions
+    switches = [(5, 5.0), (30, 0.5), (45, 4.0), (58, 1.0)] + ([(95, 3.0), (197, 0.25), (228, 6.0)] if n > 100 else [])
+    spec = srv.ref_spec(start, stop, dt)
+    s_, d_ = Fraction(str(start)), Fraction(str(dt))
+    keq = ["num", 2.0]
+    for idx, val in switches:
+        keq = ["if", ["bin", ">=", ["time"], ["num", float(s_ + idx * d_ - d_ / 2)]], ["num", val], keq]
+    spec["elements"]["k"] = {"kind": "converter", "eq": keq}
+    ref, times = refsd.RefModel(spec), refsd.grid(start, stop, dt)
+    app, client = srv.make_server(srv.make_factory(start, stop, dt))
+    iid = srv.start_instance(client)
+    client.post("/%s/begin-session" % iid, json={"scenario_managers": [SM], "scenarios": ["base"], "equations": eqs_l})
+    b = srv.make_factory(start, stop, dt)()
+    b.begin_session(scenarios=["base"], scenario_managers=[SM], equations=eqs_l)
+    sw = dict(switches)
+    for i, t in enumerate(times):
+        body = {"settings": {SM: {"base": {"constants": {"k": sw[i]}}}}} if i in sw else None
+        r = client.post("/%s/run-step" % iid, json=body) if body else client.post("/%s/run-step" % iid)
+        st = srv.step_values(srv.unpickle_json(srv.body(r)), SM, "base")
+        rr = b.run_step(settings=body["settings"]) if body else b.run_step()
+        if n > 200 and i == n - 5:
+            b.reset_scenario_cache(scenario_manager=SM, scenario="base")
+        for eq in eqs_l:
+            w = ref.value(eq, t)
+            pv = list(rr[SM]["base"][eq].values())[0] if isinstance(rr, dict) and SM in rr else None
+            for name, v in (("rest-session", st.get(eq, (None, None))[1]), ("python-session", pv)):
+                if v is None or not core.close(v, w, rel=1e-9, ab=1e-9):
+                    viol.append(("value/long-session/%s/%s" % (name, eq), "%s: step %d: %s(%r) = %r, reference %r" % (label, i, eq, float(t), v, w)))
+                    return viol
     return viol
 
 
@@ -319,6 +421,13 @@ def jobs(tier):
                     if tier == "thorough" and n >= 4 and (nondefault > 1 or sum(1 for o in opts if o == "empty") > 2):
                         continue
                     out.append(("rest", st, n, dt, comp, list(opts)))
+    for (st, dt) in ((0, 1), (1, 0.5), (-2, 1)):
+        out.append(("special", "begin-settings", st, 3, dt))
+        out.append(("special", "back-to-registered", st, 5, dt))
+    out.append(("special", "long", 0, 70, 1))
+    out.append(("special", "long", 0, 240, 1))
+    if tier == "thorough":
+        out.append(("special", "long", 1, 120, 0.5))
     return out
 
 
@@ -326,7 +435,9 @@ def _work(part):
     out = []
     for j in part:
         try:
-            if j[0] == "batch":
+            if j[0] == "special":
+                out.append(run_special(j[1], j[2], j[3], j[4]))
+            elif j[0] == "batch":
                 out.append(run_batch_and_python(j[1], j[2], j[3]))
             else:
                 out.append(run_rest_session(j[1], j[2], j[3], j[4], j[5]))
@@ -343,12 +454,15 @@ def run(ctx):
     for part, r in zip(parts, res):
         for j, viol in zip(part, r):
             for clause, detail in viol:
+                if j[0] == "special":
+                    ctx.violation("C09/%s/dt=%r/%s-n=%d" % (clause, j[4], j[1], j[3]), {"job": list(j)}, detail)
+                    continue
                 kinds = "-".join(c[0] + (str(c[1]) if len(c) > 1 else "") for c in j[4]) if j[4] else "batch"
                 ctx.violation("C09/%s/dt=%r/%s" % (clause, j[3], kinds), {"job": [j[0], j[1], j[2], j[3], [list(c) for c in j[4]] if j[4] else None, j[5]]}, detail)
     ctx.finish({
         "evaluations": len(js), "distinct_nontrivial": len(js),
         "rule": "run specs start in {0,1} x dt in {1,.5,.25,.1} plus (start,dt) in {(-2,1), (-1,.5), (-3,1)} x N <= %d steps x all compositions of the N+1 grid points into run-step / run-steps(k) / "
-                "stream-steps(rest) x per-call settings over {no body, {}, k:=5, k:=0.5, k:=4 together with new lookup points}; plus per run spec the batch run in df/dict/json, REST /run and the "
+                "stream-steps(rest) x per-call settings over {no body, {}, k:=5, k:=0.5, k:=4 together with new lookup points, k back to the registered value}; a session begun with settings naming only another constant; sessions of 70 and 240 steps (an equation looking 12 units back; cache reset in mid-session); plus per run spec the batch run in df/dict/json, REST /run and the "
                 "Python session in nested/flat steps and all session_results modes" % (3 if ctx.tier == "quick" else 5),
         "samples": [list(map(str, j)) for j in js[:3]],
     }, assumptions=["stream-steps is the last call of a composition", "one scenario per session (two scenarios: C16)"])
@@ -356,6 +470,8 @@ def run(ctx):
 
 def replay(case):
     j = case["job"]
+    if j[0] == "special":
+        return run_special(j[1], j[2], j[3], j[4]) or None
     if j[0] == "batch":
         return run_batch_and_python(j[1], j[2], j[3]) or None
     return run_rest_session(j[1], j[2], j[3], [tuple(c) for c in j[4]], j[5]) or None
